@@ -15,7 +15,7 @@ fn imax<Ix: IndexType>() -> usize {
     <Ix as IndexType>::max().index()
 }
 
-type SG<Ty, Ix> = StableGraph<u32, u32, Ty, Ix>;
+pub type SG<Ty, Ix> = StableGraph<u32, u32, Ty, Ix>;
 
 /// free lists: in range, vacant, acyclic, cover every vacancy; counters exact
 pub fn raw_invariants<Ty: EdgeType, Ix: IndexType>(cx: &mut Cx, g: &SG<Ty, Ix>, m: &Model) -> R {
@@ -91,14 +91,14 @@ fn bounds_and_extras<Ty: EdgeType, Ix: IndexType>(cx: &mut Cx, g: &SG<Ty, Ix>, m
     Ok(())
 }
 
-fn full_sweep<Ty: EdgeType, Ix: IndexType>(cx: &mut Cx, g: &SG<Ty, Ix>, m: &Model, salt: usize) -> R {
+pub fn full_sweep<Ty: EdgeType, Ix: IndexType>(cx: &mut Cx, g: &SG<Ty, Ix>, m: &Model, salt: usize) -> R {
     sweep_stable(cx, g, m, false, salt)?;
     bounds_and_extras(cx, g, m)?;
     raw_invariants(cx, g, m)
 }
 
 /// valid no-op calls that make the library run its own debug self-checks
-fn boundary_probes<Ty: EdgeType, Ix: IndexType>(cx: &mut Cx, g: &mut SG<Ty, Ix>, m: &Model) -> R {
+pub fn boundary_probes<Ty: EdgeType, Ix: IndexType>(cx: &mut Cx, g: &mut SG<Ty, Ix>, m: &Model) -> R {
     let r = catch(|| {
         g.retain_nodes(|_, _| true);
         g.retain_edges(|_, _| true);
@@ -112,7 +112,7 @@ fn boundary_probes<Ty: EdgeType, Ix: IndexType>(cx: &mut Cx, g: &mut SG<Ty, Ix>,
 }
 
 /// a new index handed out by the library must not be live (then it is adopted)
-fn adopt_new_node(cx: &mut Cx, m: &mut Model, idx: usize, w: u32, what: &str) -> R {
+pub fn adopt_new_node(cx: &mut Cx, m: &mut Model, idx: usize, w: u32, what: &str) -> R {
     cx.ensure(!m.node_live(idx), &format!("{}:new-node-index-is-live", what), || format!("{} returned index {} which is a live node", what, idx))?;
     cx.ensure(idx <= m.nodes.len(), &format!("{}:new-node-index-skips", what), || format!("{} returned index {} with {} slots", what, idx, m.nodes.len()))?;
     if idx == m.nodes.len() {
@@ -122,7 +122,7 @@ fn adopt_new_node(cx: &mut Cx, m: &mut Model, idx: usize, w: u32, what: &str) ->
     }
     Ok(())
 }
-fn adopt_new_edge(cx: &mut Cx, m: &mut Model, idx: usize, a: usize, b: usize, w: u32, what: &str) -> R {
+pub fn adopt_new_edge(cx: &mut Cx, m: &mut Model, idx: usize, a: usize, b: usize, w: u32, what: &str) -> R {
     cx.ensure(!m.edge_live(idx), &format!("{}:new-edge-index-is-live", what), || format!("{} returned index {} which is a live edge", what, idx))?;
     cx.ensure(idx <= m.edges.len(), &format!("{}:new-edge-index-skips", what), || format!("{} returned index {} with {} slots", what, idx, m.edges.len()))?;
     m.set_edge(idx, a, b, w);
